@@ -464,7 +464,9 @@ def types(a, env=None, func=False):
                         if ts[0] in (Integer, PublicInteger, SecretInteger) and ts[
                             1
                         ] in (Integer, PublicInteger, SecretInteger):
-                            t = max(ts)
+                            t = AbstractInteger.shape(
+                                max([t_v, ts[0], ts[1]]).shape()
+                            )
                         else:
                             t = TypeErrorRoot(
                                 "branches must have the same integer type"
@@ -473,7 +475,9 @@ def types(a, env=None, func=False):
                         if ts[0] in (Integer, PublicInteger, SecretInteger) and ts[
                             1
                         ] in (Integer, PublicInteger, SecretInteger):
-                            t = max(ts)
+                            t = AbstractInteger.shape(
+                                max([t_v, ts[0], ts[1]]).shape()
+                            )
                         else:
                             t = TypeErrorRoot(
                                 "branches must have the same integer type"
@@ -482,7 +486,9 @@ def types(a, env=None, func=False):
                         if ts[0] in (Integer, PublicInteger, SecretInteger) and ts[
                             1
                         ] in (Integer, PublicInteger, SecretInteger):
-                            t = max(ts)
+                            t = AbstractInteger.shape(
+                                max([t_v, ts[0], ts[1]]).shape()
+                            )
                         else:
                             t = TypeErrorRoot(
                                 "branches must have the same integer type"
